@@ -1,15 +1,16 @@
 #!/bin/bash
 # usage: tools/try_seed.sh <patch.diff> <Cxx> [more ids...]   — apply a seeded change to a SCRATCH clone of /repo
 # (never to /repo itself: background runs use it), run the quick checks against it, report, reset the clone.
+# SEED_SCRATCH=/tmp/xyz- gives a private clone/build pair (/tmp/xyz-repo, /tmp/xyz-build) for concurrent use.
 set -u
 P="$(readlink -f "$1")"; shift
-S=/tmp/seedrepo
+S="${SEED_SCRATCH:-/tmp/seed}repo"
 [ -d "$S/.git" ] || git clone -q /repo "$S"
 git -C "$S" fetch -q /repo HEAD && git -C "$S" checkout -q --detach FETCH_HEAD && git -C "$S" checkout -q -- . && git -C "$S" clean -fdq
 git -C "$S" apply "$P" || { echo "patch does not apply to HEAD"; exit 2; }
 cd "$(dirname "$0")/.."
 for ID in "$@"; do
-  R=$(VERIF_REPO=$S VERIF_BUILD=/tmp/seedbuild ./check "$ID" --tier "${TIER:-quick}" 2>/dev/null | grep -E "^(VIOLATION|KNOWN-FINDING)" | cut -c1-600)
+  R=$(VERIF_REPO=$S VERIF_BUILD="${SEED_SCRATCH:-/tmp/seed}build" ./check "$ID" --tier "${TIER:-quick}" 2>/dev/null | grep -E "^(VIOLATION|KNOWN-FINDING)" | cut -c1-600)
   echo "[$ID] ${R:-no alarm}"
 done
 git -C "$S" checkout -q -- . ; git -C "$S" clean -fdq
